@@ -33,6 +33,7 @@ type Report struct {
 	Bounded    []map[string]any
 	Sweeps     []map[string]any
 	ExtraTrusted []string
+	EngineErrors []string
 }
 
 var generalAssumptions = []string{
